@@ -262,6 +262,118 @@ theorem square_cost_zero_at_truth {R : Type} [Ring R] [Inhabited R] (cfg : LossC
   obtain ⟨j, _, rfl⟩ := hv
   rfl
 
+/-! ### the values a loss object holds: histories of calls
+
+`costModel` above (and `Sens.sensToGrad` for C07) is a PURE function of the trajectory for the current
+(θ, x0), the data and the layout.  The real loss object is stateful: it keeps the parameter values and the
+initial state it was last given.  The specification of that state is the small machine below; the harness
+(`harness/props/losshist.py`) runs scripts of calls on the real objects and on this machine in lock step and
+judges every result against the independent reference for the values held.  The theorems say what the
+machine guarantees: a call's result depends on the held values only (`outputs` is `ev` of the state), results of
+earlier calls are unaffected by later ones, a call "at the stored values" reproduces the previous result, and
+`_unrollState` writes the k-th supplied initial value at the k-th targeted position and nothing else. -/
+
+/-- what a loss object holds between calls: stored values of its free parameters, stored initial state -/
+structure Held (α : Type) where
+  theta : List α
+  x0 : List α
+
+/-- an entry-point call as the specification reads it -/
+inductive Call (α : Type) where
+  /-- `theta=None` -/
+  | atStored
+  /-- `cost(θ)`, `residual(θ)`, `sensitivity(θ)`, `jac(θ)`, … -/
+  | params (θ : List α)
+  /-- `costIV(θ ++ xs)`, `sensitivityIV(θ ++ xs)`, …: `xs` are the targeted initial values -/
+  | paramsIV (θ : List α) (xs : List α)
+
+/-- `_unrollState`: the k-th supplied value is written at position `idx[k]` of the stored initial state -/
+def unrollState (x0 : List α) : List Nat → List α → List α
+  | i :: idx, v :: vs => unrollState (x0.set i v) idx vs
+  | _, _ => x0
+
+/-- the held values after one call (`tsIdx`: positions of `target_state`, all positions when it is absent) -/
+def step (tsIdx : List Nat) (h : Held α) : Call α → Held α
+  | .atStored => h
+  | .params θ => { h with theta := θ }
+  | .paramsIV θ xs => { theta := θ, x0 := unrollState h.x0 tsIdx xs }
+
+/-- the results of a history of calls when every entry point is a pure function `ev` of the held values -/
+def outputs {β : Type} (ev : Held α → β) (tsIdx : List Nat) : Held α → List (Call α) → List β
+  | _, [] => []
+  | h, c :: cs => ev (step tsIdx h c) :: outputs ev tsIdx (step tsIdx h c) cs
+
+theorem unrollState_length (x0 : List α) (idx : List Nat) (vs : List α) :
+    (unrollState x0 idx vs).length = x0.length := by
+  induction idx generalizing x0 vs with
+  | nil => simp [unrollState]
+  | cons i idx ih =>
+    cases vs with
+    | nil => simp [unrollState]
+    | cons v vs => simp [unrollState, ih]
+
+/-- positions that are not targeted keep their value -/
+theorem unrollState_other (x0 : List α) (idx : List Nat) (vs : List α) (i : Nat) (hi : i ∉ idx) :
+    (unrollState x0 idx vs)[i]? = x0[i]? := by
+  induction idx generalizing x0 vs with
+  | nil => simp [unrollState]
+  | cons j idx ih =>
+    cases vs with
+    | nil => simp [unrollState]
+    | cons v vs =>
+      have hj : j ≠ i := fun h => hi (by simp [h])
+      have hi' : i ∉ idx := fun h => hi (by simp [h])
+      simp only [unrollState]
+      rw [ih _ _ hi', List.getElem?_set_ne hj]
+
+/-- **free initial values land where they were aimed.**  With distinct targeted positions inside the state
+vector, after `_unrollState` the k-th targeted position holds the k-th supplied value (exactly: no rounding, no
+truncation - the stored initial state has the entry type of the values supplied). -/
+theorem unrollState_target (x0 : List α) (idx : List Nat) (vs : List α) (hnd : idx.Nodup)
+    (hin : ∀ i ∈ idx, i < x0.length) (k : Nat) (hk : k < idx.length) (hkv : k < vs.length) :
+    (unrollState x0 idx vs)[idx[k]]? = some vs[k] := by
+  induction idx generalizing x0 vs k with
+  | nil => simp at hk
+  | cons j idx ih =>
+    cases vs with
+    | nil => simp at hkv
+    | cons v vs =>
+      simp only [unrollState]
+      have hnd' := List.nodup_cons.mp hnd
+      cases k with
+      | zero =>
+        simp only [List.getElem_cons_zero]
+        rw [unrollState_other _ _ _ _ hnd'.1]
+        exact List.getElem?_set_self (hin j (by simp))
+      | succ k =>
+        simp only [List.getElem_cons_succ]
+        exact ih (x0.set j v) vs hnd'.2 (fun i hi => by simpa using hin i (by simp [hi])) k
+          (by simpa using hk) (by simpa using hkv)
+
+/-- **results of earlier calls are unaffected by later ones** -/
+theorem earlier_outputs_unaffected {β : Type} (ev : Held α → β) (tsIdx : List Nat) (h : Held α)
+    (cs ds : List (Call α)) :
+    (outputs ev tsIdx h (cs ++ ds)).take cs.length = outputs ev tsIdx h cs := by
+  induction cs generalizing h with
+  | nil => simp [outputs]
+  | cons c cs ih => simp [outputs, ih]
+
+/-- **a call at the stored values reproduces the previous result**, whatever the previous call was -/
+theorem atStored_reproduces {β : Type} (ev : Held α → β) (tsIdx : List Nat) (h : Held α) (c : Call α)
+    (cs : List (Call α)) :
+    ∃ r rest, outputs ev tsIdx h (c :: .atStored :: cs) = r :: r :: rest :=
+  ⟨ev (step tsIdx h c), outputs ev tsIdx (step tsIdx h c) cs, by simp [outputs, step]⟩
+
+/-- the result of every call is `ev` of the values held after it: nothing else of the history enters -/
+theorem output_depends_on_held_values_only {β : Type} (ev : Held α → β) (tsIdx : List Nat) (h h' : Held α)
+    (c c' : Call α) (cs cs' : List (Call α)) (hsame : step tsIdx h c = step tsIdx h' c') :
+    (outputs ev tsIdx h (c :: cs)).head? = (outputs ev tsIdx h' (c' :: cs')).head? := by
+  simp [outputs, hsame]
+
+/-- non-vacuity: states (S, I, R), `target_state = ['R', 'I']` (positions 2, 1): `costIV(θ ++ [7, 5])` after
+`cost(θ')` holds θ and x0 = (9, 5, 7) -/
+example : step [2, 1] ⟨[1], [9, 1, 0]⟩ (.paramsIV [(3 : Int)] [7, 5]) = ⟨[3], [9, 5, 7]⟩ := rfl
+
 /-! ### non-vacuity: a concrete SIR-like setting over `Int` -/
 
 /-- states S, I, R; observations of R and I **in that order** at three times; per-state weights (2, 3) -/
